@@ -215,7 +215,7 @@ def C01():
     return {
         'level': 'exploration', 'parts': [gn], 'samples': [], 'own_classes': C01_CLASSES,
         'assumptions': [
-            'bounded: programs are the probe theories of /verif/probes (7 programs, 43 flat rules incl. the implicit functionality rules); operation sequences over 3 elements per type as stated in coverage.rule; never counted as proof',
+            'bounded: programs are the probe theories of /verif/probes (17 probe programs; their flat rules incl. the implicit functionality rules); operation sequences over 3 elements per type as stated in coverage.rule; never counted as proof',
             'the rules are taken from the FLAT-RULE COMMENTS the compiler writes above each emitted rule function (premise atoms incl. diagonal and type-range atoms; conclusions: tuple / equality / function defined), one per sub-rule family, ages dropped: the check decides "the closed model satisfies the flat rules", i.e. it covers sorting, index selection, RAM lowering, code generation, the semi-naive loop and the runtime, but NOT the front half (parsing, flattening of nested terms, equality elimination) -- a flattening defect changes the comment and the code alike',
             'premises are matched against the iterators (canonical tuples), conclusions are checked with the point queries / are_equal_ / evaluation functions, after every close() and every close_until() == false',
         ],
